@@ -10,7 +10,7 @@ from .c18_lib import DulExec, World, empty_report
 
 FIELDS = ("add", "del", "mod", "unstaged", "untracked")
 HEAD_ACTS = {"Checkout", "Switch", "Commit"}
-WD_ACTS = {"Checkout", "Switch", "Modify", "Chmod", "Delete", "Create", "Retype", "FileToDir", "DirToFile", "ResetHard"}
+WD_ACTS = {"Checkout", "Switch", "Modify", "Chmod", "Delete", "Create", "Retype", "FileToDir", "DirToFile", "ResetHard", "StashPush", "StashPop"}
 TREEID_ACTS = {"Checkout", "Switch", "StageAll"}
 
 
@@ -141,6 +141,10 @@ def apply_action(w: World, ex, s, wd_before: dict, opts: dict, head: dict | None
         ex.reset_mixed()
     elif a == "ResetHard":
         ex.reset_hard()
+    elif a == "StashPush":
+        ex.stash_push(opts.get("stash", "porcelain"))
+    elif a == "StashPop":
+        ex.stash_pop(opts.get("stash", "porcelain"))
     else:
         raise ValueError(a)
 
